@@ -231,12 +231,10 @@ class InlineTranslator:
 
         ### check if tuple set semantic does not allow for unique identification
         replace_terms = [stm.weight, stm.priority] + list(stm.terms)
-        if any(
-            map(
-                lambda x: potentially_unifying_sequence(x, replace_terms),
-                [t for t in self.minimize_tuples if t != replace_terms],
-            )
-        ):
+        others = list(self.minimize_tuples)
+        if replace_terms in others:
+            others.remove(replace_terms)  # this statement itself; an equal tuple of another statement stays
+        if any(map(lambda x: potentially_unifying_sequence(x, replace_terms), others)):
             log.info(f"Cannot inline agregate into {str(stm)} as the tuple is not unique.")
             return [stm]
 
